@@ -1,6 +1,7 @@
 import Spine.ApprovalExact
 import Spine.ApprovalFrame
 import Spine.ApprovalRefine
+import Spine.ApprovalConn
 /-!
 # C12 — write approval: unanimous, timely, exactly one outcome per write
 
@@ -34,6 +35,11 @@ Status of the clauses of the statement
   (`c12_independent`). "Before the timeout" is the order of events (commit before `timeoutTake`); how that order
   arises from wall-clock time is A-time.
 * "presented once to every callback": PROVED for every member over all event lists (`c12_presented_once_each`).
+* across connections (`Spine/ApprovalConn.lean`, not part of the all-schedule theorems): `dropConn` is the clean-up
+  of `CleanWriteApprovalCaches`; the driver applies it when the harness removes a connection, counters are reused
+  afterwards. `Appr.stale_tally_after_disconnect_witness` (kernel-checked, replayed on the real code, finding
+  `verdict-racing-disconnect-leaves-approval-for-reused-counter`): a verdict past its lookup at the disconnect leaves
+  an approval that a reused counter inherits. The theorems below are per connection.
 * real time ("before the approval timeout" as wall-clock time, that `time.AfterFunc` fires after the duration and
   `Stop` reports truthfully): assumption A-time; the harness measures it, the model quantifies over when the timer
   fires.
@@ -141,6 +147,21 @@ theorem c12_partial_at_most_one (evs : List Ev) (hq : Quiet {} { nCb := 1 } evs)
 example : Quiet {} { nCb := 1 } [.arrive 1, .arrive 2, .arrive 3, .lookup 10 2, .commit 10 false, .lookup 11 1,
     .commit 11 true, .timeoutTake 3, .timeoutSend 3] := by
   simp [Quiet, NoStale, step, finish]
+
+/-- REFUTED across connections for the code as it is (finding
+    `verdict-racing-disconnect-leaves-approval-for-reused-counter`): a verdict that looked the write up before the
+    peer's connection was removed commits after the clean-up and leaves its approval behind; the peer connects again,
+    reuses the message counter, and one further approval applies a write for which two callbacks are registered. -/
+theorem c12_reused_counter_refuted :
+    (crun Cfg.clean 2 [.ev (.arrive 5), .ev (.lookup 10 5), .drop, .ev (.commit 10 true),
+      .ev (.arrive 5), .ev (.lookup 11 5), .ev (.commit 11 true)]).outcomes = [(5, .applied)] :=
+  stale_tally_after_disconnect_witness
+
+/-- the clean-up itself forgets everything that is keyed by the peer: without a verdict in flight a reused counter
+    starts from nothing -/
+theorem c12_disconnect_forgets (s : St) :
+    (dropConn s).pending = [] ∧ (dropConn s).armed = [] ∧ (dropConn s).tally = none ∧ (dropConn s).seen = [] :=
+  dropConn_clean s
 
 /-! ### refinement: applied ⇔ unanimous in time, independence (repaired member) -/
 
